@@ -339,8 +339,22 @@ func c32Units() []c32Unit {
 		{"revert", func(a *c32Asm) { a.push(0).push(0).op(vm.REVERT) }, func(m *c32Model) int { return c32Fail }},
 		{"invalid", func(a *c32Asm) { a.op(vm.INVALID) }, func(m *c32Model) int { return c32Fail }},
 		{"out_of_gas", func(a *c32Asm) { a.push(1).push(0x3fffffff).op(vm.MSTORE) }, func(m *c32Model) int { return c32Fail }},
+		// ---- gas-settlement units (not part of the sequence alphabet, used by the [settlement] part): no ether moves
+		noop("sstore_set", func(a *c32Asm) { a.push(1).push(0).op(vm.SSTORE) }),
+		noop("sstore_clear_4_more", func(a *c32Asm) { // slots 2..5 hold 1: four more refunds
+			for slot := uint64(2); slot <= 5; slot++ {
+				a.push(0).push(slot).op(vm.SSTORE)
+			}
+		}),
+		noop("work_1", func(a *c32Asm) { a.push(1).push(0x21).op(vm.SSTORE) }), // one fresh storage slot worth of gas each
+		noop("work_2", func(a *c32Asm) { a.push(1).push(0x22).op(vm.SSTORE) }),
+		noop("work_3", func(a *c32Asm) { a.push(1).push(0x23).op(vm.SSTORE) }),
+		noop("work_small", func(a *c32Asm) { a.push(0x31).op(vm.SLOAD, vm.POP).push(64).push(0).op(vm.KECCAK256, vm.POP) }),
 	}
 }
+
+// c32Alphabet: number of leading units of c32Units that form the sequence alphabet.
+const c32Alphabet = 23
 
 // c32Program: B's code. A call that carries any calldata returns immediately, so that the B -> B value call of
 // unit call_self (which passes no calldata either) would recurse: to keep the model trivial the guard is on
@@ -372,6 +386,8 @@ type c32TxSpec struct {
 	FeeCap     uint64 `json:"fee_cap,omitempty"` // gas price for legacy
 	BlobCapAdd uint64 `json:"blob_cap_above_fee,omitempty"`
 	Init       string `json:"init,omitempty"` // create: ok | revert | destruct_self | destruct_e
+	DataNZ     int    `json:"calldata_nonzero_bytes,omitempty"`
+	DataZ      int    `json:"calldata_zero_bytes,omitempty"`
 }
 
 type c32PowSpec struct {
@@ -512,7 +528,7 @@ func c32Run(f c32Fork, units []c32Unit, seq []int, c c32Case) (outcome string, e
 	alloc := types.GenesisAlloc{
 		c32S:  {Balance: ample},
 		c32S2: {Balance: ample},
-		c32B:  {Balance: big.NewInt(1000), Code: c32Program(units, seq), Storage: map[common.Hash]common.Hash{{31: 1}: {31: 1}}},
+		c32B:  {Balance: big.NewInt(1000), Code: c32Program(units, seq), Storage: map[common.Hash]common.Hash{{31: 1}: {31: 1}, {31: 2}: {31: 1}, {31: 3}: {31: 1}, {31: 4}: {31: 1}, {31: 5}: {31: 1}}},
 		c32E:  {Balance: big.NewInt(1)},
 		c32Rv: {Balance: new(big.Int), Code: (&c32Asm{}).push(0).push(0).op(vm.REVERT).b},
 		c32Og: {Balance: new(big.Int), Code: (&c32Asm{}).push(1).push(0).op(vm.SSTORE, vm.STOP).b},
@@ -560,6 +576,7 @@ func c32Run(f c32Fork, units []c32Unit, seq []int, c c32Case) (outcome string, e
 		blobFee     = new(big.Int)
 		delta       = new(big.Int) // expected change of the total supply apart from destroyed ether
 		firstStatus = uint64(1)
+		firstGas    uint64
 		snaps       []*c32Model // model after each block
 		deltas      []*big.Int
 	)
@@ -570,6 +587,12 @@ func c32Run(f c32Fork, units []c32Unit, seq []int, c c32Case) (outcome string, e
 			to = &c32B
 		}
 		var data []byte
+		if spec.DataNZ+spec.DataZ > 0 {
+			data = make([]byte, spec.DataNZ+spec.DataZ)
+			for i := 0; i < spec.DataNZ; i++ {
+				data[i] = byte(1 + i%255)
+			}
+		}
 		if spec.Kind == "create" {
 			switch spec.Init {
 			case "ok":
@@ -682,6 +705,7 @@ func c32Run(f c32Fork, units []c32Unit, seq []int, c c32Case) (outcome string, e
 			want := applyModel(tr, rc.GasUsed)
 			if i == 0 && ti == 0 {
 				firstStatus = want
+				firstGas = rc.GasUsed
 			}
 			if genErr == nil && f.status && rc.Status != want {
 				genErr = fmt.Errorf("block %d tx %d: receipt status %d, expected by construction %d", i+1, ti, rc.Status, want)
@@ -806,6 +830,14 @@ func c32Run(f c32Fork, units []c32Unit, seq []int, c c32Case) (outcome string, e
 	if firstStatus == 0 {
 		st = "failed"
 	}
+	// EIP-7623 (Prague..Osaka): was the gas used lifted to the calldata floor 21000 + 10*(zeros + 4*nonzeros)?
+	if f.prague && !f.amsterdam && c.Tx.Kind != "create" && c.Tx.DataNZ+c.Tx.DataZ > 0 {
+		if firstGas == uint64(21000+10*(c.Tx.DataZ+4*c.Tx.DataNZ)) {
+			st += "_calldata_floor_binding"
+		} else {
+			st += "_above_calldata_floor"
+		}
+	}
 	if destroyed.Sign() > 0 {
 		return "tx_" + st + "_ether_destroyed", nil
 	}
@@ -831,7 +863,7 @@ func TestVerif_C32(t *testing.T) {
 		rec = func(seq []int) {
 			seqs = append(seqs, seq)
 			if len(seq) < maxLen {
-				for u := range units {
+				for u := range units[:c32Alphabet] {
 					rec(append(append([]int{}, seq...), u))
 				}
 			}
@@ -847,11 +879,13 @@ func TestVerif_C32(t *testing.T) {
 			"[fees] 10 programs x rule sets x block base fee {0,1,7,875000000} x every valid (tip, fee cap) in {0,1,7,1e9}^2, legacy prices {base, base+1, 1e9}, blob transactions (Cancun+, blob base fee > 1) x value {0,7}; [create] creation transactions with 4 init codes; " +
 			"[withdrawals] {1}, {1,3}, {0,2,5} gwei to an existing and an absent account (Shanghai+); [two] a second plain transfer from another sender in the same block; " +
 			"[zero-credit] every <=1-unit program with a sender owning exactly gas limit x price + value (refund and program credits land on a zero balance), price == base fee (coinbase stays at zero) and above; " +
+			"[settlement] calldata {0, 4, 2000 zero, 1000, 1500+500 zero, 2000, 2500, 3000, 6000 non-zero bytes} (EIP-7623 floor 21000+10*tokens from not binding to binding) x execution {none, SSTORE set, SSTORE clear (refund), clear+set, clear+small work, " +
+			"5 clears, 5 clears + 0..3 fresh-slot SSTOREs / small work (usage before and after the refund moved across the floor), clear + value call, 5 clears + REVERT} x 7 rule sets x {dynamic fee with value, legacy with a sender owning exactly the maximal cost}; " +
 			"[rewards] proof-of-work chains of 5 blocks on 4 rule sets (frontier 5 ether, byzantium 3, berlin 2, london 2 with base fee) with uncles {none, one at depth 1 in block 3, one at depth 2 in block 4, two at depths 2+1 in block 4, two at depth 1 in block 3} x " +
 			"uncle coinbases {never funded, funded EOA, the block's coinbase, the transaction sender} (6 pairs for two uncles, incl. the same never-funded miner twice) x 2 gas prices (0 leaves the coinbase unfunded until the reward), plus program transactions next to uncles; " +
 			"rewards computed by the model from the yellow-paper formula R + R/32 per uncle, (8 + U - B) R / 8 per uncle miner; " +
 			"oracle: reference model of balances (fork rules for self-destruction as booleans, gas used taken from the receipts) == every account balance read from the state trie after every block of the chain (incl. the trailing empty block), total ether equation, per-transaction sender and coinbase deltas, receipt status")
-		r.Bound("units", len(units))
+		r.Bound("units", c32Alphabet)
 		r.Bound("max_units", maxLen)
 		r.Bound("programs", len(seqs))
 		r.Assume("gas used per transaction is an input (taken from the receipt); which inner calls fail is fixed by construction (explicit REVERT / INVALID / 100 gas for an SSTORE / value above the balance), every transaction has 5M gas")
@@ -935,6 +969,33 @@ func TestVerif_C32(t *testing.T) {
 				}
 			}
 		}
+		// gas settlement: calldata sizes around the EIP-7623 floor x executions with / without refunds and with work that moves
+		// the usage before / after the refund across the floor
+		settleExec := [][]string{{}, {"sstore_set"}, {"sstore_clear_refund"}, {"sstore_clear_refund", "sstore_set"}, {"sstore_clear_refund", "work_small"},
+			{"sstore_clear_refund", "sstore_clear_4_more"}, {"sstore_clear_refund", "sstore_clear_4_more", "work_small"},
+			{"sstore_clear_refund", "sstore_clear_4_more", "work_1"}, {"sstore_clear_refund", "sstore_clear_4_more", "work_1", "work_small"},
+			{"sstore_clear_refund", "sstore_clear_4_more", "work_1", "work_2"}, {"sstore_clear_refund", "sstore_clear_4_more", "work_1", "work_2", "work_3"},
+			{"sstore_clear_refund", "call_eoa"}, {"sstore_clear_refund", "sstore_clear_4_more", "revert"}}
+		type dshape struct{ nz, z int }
+		settleData := []dshape{{0, 0}, {4, 0}, {0, 2000}, {1000, 0}, {1500, 500}, {2000, 0}, {2500, 0}, {3000, 0}, {6000, 0}}
+		nSettle := 0
+		for fi := range forks[:7] {
+			for _, ex := range settleExec {
+				seq := []int{}
+				for _, n := range ex {
+					seq = append(seq, idx[n])
+				}
+				for _, d := range settleData {
+					t1 := dyn(7, 1, 1_000_000_000)
+					t1.DataNZ, t1.DataZ = d.nz, d.z
+					add(fi, seq, c32Case{GenesisFee: 8, Tx: t1, Insert: d.nz == 2000 && len(ex) <= 1})
+					t2 := c32TxSpec{Kind: "legacy", FeeCap: 9, DataNZ: d.nz, DataZ: d.z}
+					add(fi, seq, c32Case{GenesisFee: 8, Tx: t2, ExactSender: true})
+					nSettle += 2
+				}
+			}
+		}
+		r.Bound("settlement_chains", nSettle)
 		// proof-of-work chains of 5 blocks with uncles (consensus rewards): block 3 / block 4 carry 0, 1 or 2 uncles at depth 1..2
 		singles := [][]string{{"never_funded"}, {"funded_eoa"}, {"block_coinbase"}, {"tx_sender"}}
 		pairs := [][]string{{"never_funded", "never_funded"}, {"never_funded", "never_funded2"}, {"never_funded", "funded_eoa"}, {"funded_eoa", "block_coinbase"},
